@@ -125,6 +125,51 @@ where
             ));
         }
     }
+    if tamper.is_none() && proof.num_layers() >= 1 {
+        // a transcript whose number of layers differs from the number of folding steps of the options, with a commitment
+        // list that matches the PROOF (so the channel is consistent in itself): the last layer and its commitment
+        // dropped / the last layer and its commitment duplicated. Must be refused - by the channel, by FriVerifier::new
+        // or by verify - and must not panic.
+        let nl = proof.num_layers();
+        let mut bounds = vec![1usize];
+        for _ in 0..nl {
+            let mut p = *bounds.last().unwrap();
+            for _ in 0..2 {
+                let len = u32::from_le_bytes([bytes[p], bytes[p + 1], bytes[p + 2], bytes[p + 3]]) as usize;
+                p += 4 + len;
+            }
+            bounds.push(p);
+        }
+        for dup in [false, true] {
+            let mut b2 = Vec::new();
+            let mut c2 = commitments.clone();
+            if dup {
+                b2.push((nl + 1) as u8);
+                b2.extend_from_slice(&bytes[1..bounds[nl]]);
+                b2.extend_from_slice(&bytes[bounds[nl - 1]..bounds[nl]]);
+                c2.insert(nl, commitments[nl - 1]);
+            } else {
+                b2.push((nl - 1) as u8);
+                b2.extend_from_slice(&bytes[1..bounds[nl - 1]]);
+                c2.remove(nl - 1);
+            }
+            b2.extend_from_slice(&bytes[bounds[nl]..]);
+            let what = if dup { "duplicated" } else { "dropped" };
+            let outcome = catch_unwind(AssertUnwindSafe(|| -> Result<(), String> {
+                let p2 = FriProof::read_from(&mut SliceReader::new(&b2)).map_err(|e| e.to_string())?;
+                let mut ch = DefaultVerifierChannel::<E, H>::new(p2, c2.clone(), domain_size, options.folding_factor()).map_err(|e| e.to_string())?;
+                let mut coin = DefaultRandomCoin::<H>::new(&[]);
+                let v = FriVerifier::new(&mut ch, &mut coin, options.clone(), max_degree).map_err(|e| e.to_string())?;
+                let queried: Vec<E> = positions.iter().map(|&p| evals[p]).collect();
+                v.verify(&mut ch, &queried, &positions).map_err(|e| e.to_string())
+            }));
+            match outcome {
+                Err(_) => fail(format!("the FRI verifier PANICS on a transcript with the last of {nl} layers and its commitment {what} (domain {domain_size}, folding {})", options.folding_factor())),
+                Ok(Ok(())) => fail(format!("the FRI verifier ACCEPTS a transcript with the last of {nl} layers and its commitment {what}")),
+                Ok(Err(_)) => {},
+            }
+        }
+    }
     let mut vchannel = match DefaultVerifierChannel::<E, H>::new(proof, commitments, domain_size, options.folding_factor()) {
         Ok(c) => c,
         Err(_) => return Err(VerifierError::InvalidRemainderFolding),
